@@ -27,6 +27,9 @@ import traceback
 from .world import Chooser, CallbackHang, HarnessError
 
 VERIF = os.path.dirname(os.path.dirname(os.path.abspath(__file__)))
+#: where evidence and replay files go; the selftests that run a check against a scratch tree (reverted fix, seeded change)
+#: point this elsewhere so that /verif/evidence only ever describes runs against /repo itself
+OUT_DIR = os.environ.get('VERIF_OUT_DIR') or VERIF
 WATCHDOG_S = 60
 
 
@@ -190,12 +193,18 @@ def run_batch(prop_id, tier, base_seed, budget_s, workers, max_cases=None, chunk
                     cur = total['viols'].get(viol['sig'])
                     if cur is None:
                         viol['count'] = 1
+                        viol['alts'] = []
                         total['viols'][viol['sig']] = viol
                     else:
                         cur['count'] += 1
+                        # a few more witnesses: if the smallest one owes its violation to state left behind by
+                        # an earlier run of the same worker process it will not replay on its own, another may
                         if viol['size'] < cur['size']:
                             viol['count'] = cur['count']
+                            viol['alts'] = ([cur] + cur.pop('alts'))[:6]
                             total['viols'][viol['sig']] = viol
+                        elif len(cur['alts']) < 6:
+                            cur['alts'].append(viol)
                 submit()
     total['cases'] = next_index
     total['wall_s'] = time.time() - start_t
@@ -293,9 +302,9 @@ def minimise(prop, plan, tape, want_sig, budget_s):
 
 
 def write_replay(prop_id, sig, plan, tape, detail, base_seed, index, minimised):
-    os.makedirs(os.path.join(VERIF, 'replays'), exist_ok=True)
+    os.makedirs(os.path.join(OUT_DIR, 'replays'), exist_ok=True)
     tag = hashlib.blake2b(sig.encode(), digest_size=4).hexdigest()
-    path = os.path.join(VERIF, 'replays', '%s-%s-%s.json' % (prop_id, base_seed, tag))
+    path = os.path.join(OUT_DIR, 'replays', '%s-%s-%s.json' % (prop_id, base_seed, tag))
     with open(path, 'w') as outfile:
         json.dump(dict(property=prop_id, signature=sig, detail=detail, seed=base_seed, index=index,
                        minimised=minimised, plan=plan, tape=tape), outfile, indent=1, sort_keys=True)
@@ -326,7 +335,7 @@ def fresh_replay_ok(path, want_sig):
 
 # -- evidence -----------------------------------------------------------------------
 def write_evidence(prop, tier, base_seed, total, reported, extra=None):
-    os.makedirs(os.path.join(VERIF, 'evidence'), exist_ok=True)
+    os.makedirs(os.path.join(OUT_DIR, 'evidence'), exist_ok=True)
     wall = total['wall_s']
     cov = dict(
         evaluations=int(total['evals']),
@@ -362,7 +371,7 @@ def write_evidence(prop, tier, base_seed, total, reported, extra=None):
         wall_s=round(wall, 2),
         violations=len([item for item in reported if item['status'] == 'violation']),
     )
-    path = os.path.join(VERIF, 'evidence', '%s.json' % prop.ID)
+    path = os.path.join(OUT_DIR, 'evidence', '%s.json' % prop.ID)
     with open(path, 'w') as outfile:
         json.dump(evd, outfile, indent=1, sort_keys=True, default=str)
     return path
@@ -383,15 +392,24 @@ def check_main(prop_id, tier, base_seed, budget_s, workers, max_cases=None):
                 prop_id, known[sig]['what'], sig, viol['count']))
             reported.append(dict(sig=sig, status='known'))
             continue
-        (plan, tape, ok) = minimise(prop, viol['plan'], viol['tape'], sig, min_budget)
-        if not ok:
-            # not reproducible in-process: a determinism defect of the harness
-            total['harness_errors'].append((viol['index'], 'violation %s did not reproduce' % sig, ''))
-            reported.append(dict(sig=sig, status='unreproducible'))
-            continue
-        path = write_replay(prop_id, sig, plan, tape, viol['detail'], base_seed, viol['index'], True)
-        if not fresh_replay_ok(path, sig):
-            total['harness_errors'].append((viol['index'], 'violation %s did not reproduce in a fresh interpreter' % sig, ''))
+        path = None
+        why = ''
+        for wit in [viol] + viol.get('alts', []):
+            (plan, tape, ok) = minimise(prop, wit['plan'], wit['tape'], sig, min_budget)
+            if not ok:
+                # not reproducible in-process
+                why = 'violation %s did not reproduce' % sig
+                continue
+            path = write_replay(prop_id, sig, plan, tape, wit['detail'], base_seed, wit['index'], True)
+            if fresh_replay_ok(path, sig):
+                viol = dict(wit, count=viol['count'])
+                break
+            why = 'violation %s did not reproduce in a fresh interpreter' % sig
+            path = None
+        if path is None:
+            # no witness replays on its own: a determinism defect of the harness, or process-global state that
+            # the code under test carries from one run to the next within a worker process
+            total['harness_errors'].append((viol['index'], why + ' (%d witnesses tried)' % (1 + len(viol.get('alts', []))), ''))
             reported.append(dict(sig=sig, status='unreproducible'))
             continue
         print('violation: %s :: %s (seen %d times)' % (sig, viol['detail'], viol['count']))
